@@ -9,6 +9,7 @@ import Unsized.PtrMachine
 import Unsized.PtrChainNotify
 import Unsized.PtrChainNav
 import Unsized.PtrHonestM16
+import Unsized.C07Spec
 /-!
 # C03 — Resizing never reads or writes outside the account's allocation; swapped accessors are detected
 
@@ -501,5 +502,71 @@ theorem checkTop_passes (s : Shape) (cmds : List Cmd) (w : PtrM.World) (v : Val)
     checkTop (Unsized.Ptr.prun s w cmds).1.a.rng (Unsized.Ptr.prun s w cmds).1.a.root = true
     ∧ (PtrM.endBuf (Unsized.Ptr.prun s w cmds).1 .A).2 = true :=
   Unsized.Ptr.checkTop_passes s cmds w v inv hok
+
+/-! ## The valid range a wrapper is given IS the allocation — after every resize history
+
+`PtrM.PBuf.rng` (what `check_pointers` is run against in every theorem above) is
+`base .. base + orig + 10240` BY DEFINITION; what makes that the right model of the code is (1) no op changes
+`orig` (`range_fixed`), and (2) the real `AccountInfo::data_mut` (wrapper.rs 76–88; modelled with its
+`i64` arithmetic, the borrow byte and pinocchio's `resize_delta` bookkeeping in `Unsized/Runtime.lean`, the
+model of C07) returns exactly this range for every new exclusive borrow, whatever grows and shrinks earlier
+borrows of the same instruction performed (`account_range_exact`). The harness observes the range of every
+new top wrapper (`rng=` on `reborrow` lines, gate `wrapper_range_not_allocation`). -/
+
+/-- **range_fixed.** No op changes the original length, hence the valid range of the buffer: for every op
+on an invariant state, the `PBuf` with the op's resulting memory has the same `rng`. -/
+theorem range_fixed (s : Shape) (v : Val) (g : Good s v) (m : Mem) (hb : m.bytes = encode s v) (c : Calm m)
+    (abs : List Step) (op : Op) (X : PtrM.PBuf) (hX : X.mem = m) :
+    (applyOpT s abs op m).1.1.orig = m.orig ∧
+    ({ X with mem := (applyOpT s abs op m).1.1 } : PtrM.PBuf).rng = X.rng := by
+  obtain ⟨L, h⟩ := applyOpS_ok s v g m hb c abs op
+  have ho : (applyOpT s abs op m).1.1.orig = m.orig := by
+    have := h.orig
+    rwa [applyOpS_fst, ← applyOpT_fst] at this
+  refine ⟨ho, ?_⟩
+  simp only [PtrM.PBuf.rng, ho, hX]
+
+/-- **account_range_exact.** Over the runtime model of `AccountInfo` (C07's machine: any history of
+`borrow_mut` / `borrow` / `release` / `grow` / `shrink` — refused borrows and refused growths included — from a
+fresh account): in every reachable state, whenever `data_mut` grants the exclusive borrow, the range it
+returns is `base .. base + original_len + 10240` — the `rng` of the pointer machine's buffer with that base
+and original length — independent of the current length and of the accumulated `resize_delta`; the slice
+length is the current length; and a live wrapper holds that same range. -/
+theorem account_range_exact {st : Unsized.Runtime.State} (h : Unsized.C07.Reachable st) (X : PtrM.PBuf)
+    (hbase : X.base = st.acct.base) (horig : X.mem.orig = st.acct.orig) :
+    (∀ a' dlen lo hi, Unsized.Runtime.dataMut st.acct = (a', .ok (dlen, lo, hi)) →
+      X.rng = ⟨lo, hi⟩ ∧ hi = st.acct.base + st.acct.orig + 10240 ∧ dlen = st.acct.len) ∧
+    (∀ w, st.excl = some w → X.rng = ⟨w.lo, w.hi⟩) := by
+  have hi := Unsized.C07.reachable_inv h
+  have hr : X.rng = ⟨st.acct.base, st.acct.base + st.acct.orig + 10240⟩ := by
+    simp only [PtrM.PBuf.rng, hbase, horig, maxIncrease]
+  refine ⟨?_, fun w hw => ?_⟩
+  · intro a' dlen lo hi' hd
+    by_cases hf : st.acct.borrow % 16 = 15
+    · rw [Unsized.Runtime.dataMut_ok hi.acct hi.bLt hf] at hd
+      simp only [Prod.mk.injEq, Unsized.Runtime.Res.ok.injEq] at hd
+      obtain ⟨_, h1, h2, h3⟩ := hd
+      subst h1 h2 h3
+      exact ⟨hr, rfl, rfl⟩
+    · rw [Unsized.Runtime.dataMut_refused hi.bLt hf] at hd
+      simp at hd
+  · obtain ⟨h1, h2, _, _⟩ := hi.wrap w hw
+    rw [hr, h1, h2]
+
+/-- Non-vacuity, and what the formula must NOT be: after `borrow_mut; grow a by 300; release` of the account
+`d7` (`orig = 20016`) the next `data_mut` returns `len = 20316` and the range end `base + 30256 =
+base + orig + 10240` — not `base + len + 10240 = base + 30556` (the formula without `- resize_delta`, red-team
+mutant `bonus-resize-delta-range`), under which the first 300 bytes behind the allocation — the next account's
+header and data — would count as "inside". -/
+def d7Grown : Unsized.Runtime.State :=
+  (Unsized.Runtime.run Unsized.C07.d7 [.borrowMut, .grow 0 300, .release 0]).1
+def grantedRange (a : Unsized.Runtime.Acct) : Option (Nat × Nat × Nat) :=
+  match (Unsized.Runtime.dataMut a).2 with
+  | .ok r => some r
+  | _ => none
+example : grantedRange d7Grown.acct = some (20316, 1048576, 1048576 + 20016 + 10240) := by decide
+example : d7Grown.acct.delta = 300 ∧ d7Grown.acct.base + d7Grown.acct.len + 10240 = 1048576 + 30556 := by decide
+example : Unsized.C07.Reachable d7Grown := ⟨Unsized.C07.d7, _, ⟨⟨1048576, true, [.list, .list], [2000, 18000], 20016, rfl,
+  by simp [Unsized.Runtime.LayoutOK, Unsized.Runtime.Kind.width], by decide, by decide⟩⟩, rfl⟩
 
 end Unsized.C03
